@@ -344,10 +344,10 @@ func c17Run(w *core.W) {
 		return false
 	})
 	w.S.States += e.Nodes
+	// The abstract state includes the pending literal text, so the state count grows
+	// by an order of magnitude per level (1.6 M states at depth 6; depth 7 does not fit
+	// in memory): both tiers search to depth 6, the thorough tier adds a token instead.
 	depth := 6
-	if w.Thorough() {
-		depth = 8
-	}
 	st := &state.Search{W: w, Name: "enumscanner", Symbols: enumSymbols, MaxDepth: depth, MaxLen: 64,
 		Key:   func(p []byte) (string, int, bool) { return enum.VerifKeyAfter(p, false) },
 		Check: func(in []byte) { c17Accept(w, in, "state") }, Complete: ref.JSONCompletion}
